@@ -106,8 +106,8 @@ func (cr *CRAuthenticator) Authenticate(sid wamp.ID, details wamp.Dict, client w
 	}
 	authRsp, ok := msg.(*wamp.Authenticate)
 	if !ok {
-		return nil, fmt.Errorf("unexpected %v message received from client %v",
-			msg.MessageType(), client)
+		return nil, fmt.Errorf("unexpected %v message received from client",
+			msg.MessageType())
 	}
 
 	// Check signature.
